@@ -344,7 +344,7 @@ PROPS["C12"].update(
     technique="deterministic simulation: seeded scheduler + virtual clock, per-operation invariants, porcupine linearizability on recorded histories")
 PROPS["C13"].update(
     level_text="seeded exploration with in-flight tampering at a relay router: a request (response) carrying the time service's authenticator is served (accepted) only if an independent recomputation of its CMAC matches, the reply to a verified request verifies, every reply goes to the previous hop over the independently reversed path with addresses and ports exchanged, SCMP payloads are echoed intact, and forwarding happens only from the end-host port and never back to it. Evidence, not proof.",
-    level_note="IPv4 hosts, empty and standard SCION paths; DRKeys from a mock daemon; border-router MAC checks are not modelled",
+    level_note="IPv4 and (1/3 of the runs) IPv6 hosts, empty and standard SCION paths; DRKeys from a mock daemon; border-router MAC checks are not modelled",
     technique="deterministic simulation with fault injection: tampering relay router, independent MAC recomputation and reply-addressing oracle")
 PROPS["C14"].update(
     level_text="the segmentation clause is decided by simulation: the real record reader over a simulated stream cut at every single position (tiled across a batch) and at random multiple positions, raw and through TLS; the codec clauses are checked on every datagram in flight and on generated values through the real encoders/decoders. Evidence, not proof; exhaustive only for single cut positions of the messages used when the batch is large enough to tile them.",
